@@ -27,7 +27,7 @@ ASSUMPTIONS = ["the domain controller is conforming (reference DC of vlib/refdc.
                "the security context keeps body lengths and produces signatures of the announced size (C13) and only unwraps what the peer sealed (C16)"]
 RULE = ("operations x 4 hashes x {seed, DH, P256, P384} x SID shapes (SD length residues) x domain/forest name lengths (reply residues) x blob / DC-now positions incl. L2 = 31 in both "
         "shapes x {exact, covering} replies x provider {negotiate, ntlm, kerberos} x signature sizes x 1..4 legs (incl. empty final token) x header signing on/off x optional root key id, "
-        "toy context and real NTLM, error replies (ept_map status, rejected context, GetKey failure); every case runs the sync AND the async API; non-trivial = all; distinct = distinct case text")
+        "toy context, real NTLM and real SPNEGO(NTLM) through pyspnego, error replies (ept_map status, rejected context, GetKey failure); every case runs the sync AND the async API; non-trivial = all; distinct = distinct case text")
 PARTIAL = [
     "C17_sync_async_partial: equality of _sync_get_key and _async_get_key is NOT a theorem: the pair differs as normalised ASTs (rpc.request(0, ..) vs rpc.request(context_id, ..), "
     "`with f() as rpc` vs `rpc = await f(); async with rpc`, default of root_key_id) and is therefore not in TWINS; proved: the two public pairs are identical after normalisation and the "
@@ -94,7 +94,10 @@ def cfg_of(v) -> refdc.Config:
 def provider_script(cfg: refdc.Config, sig_len: int):
     """legs of the client's provider and the tokens the server answers with; real NTLM uses placeholders (canonicalised on the way out)"""
     if cfg.mode == "ntlm":
-        return [[b"C0", 0], [b"C1", 1]], [b"S0", None], 16, 10
+        shape, sshape, sig = refdc.real_handshake_shape(cfg.protocol)
+        legs = [[(b"C%d" % i) if nonempty else b"", 1 if complete else 0] for i, (nonempty, complete) in enumerate(shape)]
+        stoks = [(b"S%d" % i) if present else None for i, present in enumerate(sshape)]
+        return legs, stoks, sig, refdc.AUTHN[cfg.protocol]
     ctoks, stoks = refdc.toy_tokens(cfg.nlegs, cfg.final_empty)
     legs = [[tok, 1 if i == len(ctoks) - 1 else 0] for i, tok in enumerate(ctoks)]
     return legs, stoks, sig_len, refdc.AUTHN[cfg.protocol]
@@ -165,9 +168,9 @@ def gen_cases(ctx: Ctx):
                 h = 1 + k % 4
                 cases.append(mk_case(1, SIDS[k % len(SIDS)], [None, 0, 1][k % 3], None,
                                      base_cfg(hash=h, kind=kind, authorized=1 if kind == 0 else 0, now1=n1, now2=n2, l2_shape=shape,
-                                              proto=k % 3, nlegs=1 + k % 4, final_empty=1 if k % 5 == 0 else 0, header_sign=k % 2,
+                                              proto=k % 3, nlegs=1 + (k // 4) % 4, final_empty=1 if k % 5 == 0 else 0, header_sign=(k // 2) % 2,
                                               domain="d" * (1 + k % 9) + ".test", forest="f" * (k % 7) + "orest", seg_seed=k),
-                                     sig_len=[16, 28, 60, 76][k % 4]))
+                                     sig_len=[16, 28, 60, 76][(k // 2) % 4]))
     # unprotect: blob positions x covering replies x kinds
     for (b1, b2) in POSITIONS:
         for cover in (0, 1):
@@ -179,10 +182,10 @@ def gen_cases(ctx: Ctx):
                 shape = 1 if (k % 4 == 0) else 0
                 cases.append(mk_case(0, SIDS[k % len(SIDS)], k % 2, (l0, b1, b2),
                                      base_cfg(hash=1 + k % 4, kind=kind, cover=cover, l2_shape=shape, now1=31 if k % 2 else 20, now2=31 if k % 2 else 9,
-                                              proto=k % 3, nlegs=1 + k % 4, final_empty=1 if k % 7 == 0 else 0, header_sign=(k // 2) % 2,
+                                              proto=k % 3, nlegs=1 + (k // 3) % 4, final_empty=1 if k % 7 == 0 else 0, header_sign=(k // 2) % 2,
                                               domain="dom" + "x" * (k % 11), forest="for" + "y" * (k % 5), seg_seed=k),
-                                     sig_len=[16, 28, 60, 76][k % 4]))
-    # real NTLM
+                                     sig_len=[16, 28, 60, 76][(k // 5) % 4]))
+    # real security contexts through pyspnego: NTLM, and SPNEGO negotiating NTLM (three legs, the last token empty)
     n_ntlm = ctx.n(10, 120)
     for i in range(n_ntlm):
         k += 1
@@ -191,7 +194,7 @@ def gen_cases(ctx: Ctx):
         pos = (361, POSITIONS[i % len(POSITIONS)][0], POSITIONS[i % len(POSITIONS)][1])
         n1, n2 = POSITIONS[(i * 5 + 3) % len(POSITIONS)]
         cases.append(mk_case(op, SIDS[i % len(SIDS)], (i % 2) if op == 0 else [None, 0][i % 2], pos,
-                             base_cfg(mode=1, proto=1, hash=1 + i % 4, kind=kind, authorized=1 if (kind == 0 or op == 0) else 0, now1=max(n1, pos[1]) if op == 0 else n1,
+                             base_cfg(mode=1, proto=i % 2, hash=1 + i % 4, kind=kind, authorized=1 if (kind == 0 or op == 0) else 0, now1=max(n1, pos[1]) if op == 0 else n1,
                                       now2=31 if op == 0 else n2, l2_shape=(i // 2) % 2, header_sign=(i // 3) % 2, cover=(i // 4) % 2, seg_seed=k)))
     # error replies of the peer
     for j, kw in enumerate([dict(ept_status=0x16C9A0D6), dict(epm_result=2), dict(isd_result=2), dict(getkey_hresult=0x80070005),
